@@ -20,7 +20,7 @@ from mapproxy.exception import RequestError, PlainExceptionHandler
 from mapproxy.service.base import Server
 from mapproxy.request.tile import TileRequest
 from mapproxy.srs import SRS
-from mapproxy.util.coverage import load_limited_to
+from mapproxy.util.coverage import load_limited_to_all
 from mapproxy.util.escape import escape_html
 
 
@@ -128,13 +128,10 @@ class KMLServer(Server):
                 return
             if result['authorized'] == 'partial':
                 if result['layers'].get(tile_layer.name, {}).get('tile', False) is True:
-                    limited_to = result['layers'][tile_layer.name].get('limited_to')
-                    if not limited_to:
-                        limited_to = result.get('limited_to')
-                    if limited_to:
-                        return load_limited_to(limited_to)
-                    else:
-                        return None
+                    # the limit of the layer and the limit of the whole request both apply
+                    return load_limited_to_all(
+                        result['layers'][tile_layer.name].get('limited_to'),
+                        result.get('limited_to'))
             raise RequestError('forbidden', status=403)
 
     def _internal_layer(self, tile_request):
